@@ -437,6 +437,25 @@ func rulePlayLoop(c *Ctx) {
 				})
 				good = ok && side
 				why = "flag overrides are not restricted to the first instance (i == 0): a --bpm/--key flag would reset every instance"
+				// ... and to nothing else: no other test decided inside the loop (is it a rest? has it a chord?) stands in front
+				if good {
+					tr := c.plainTracer()
+					idx := lval{l.index, nf, nil}
+					for _, g := range guardsOf(ov.Block(), lval{nil, nf, nil}) {
+						if _, isIdx := tr.zeroTest(g, idx); isIdx {
+							continue
+						}
+						in, isInstr := g.cond.v.(ssa.Instruction)
+						if !isInstr || !l.blocks[in.Block()] {
+							continue
+						}
+						if cmp, ok := g.cond.v.(*ssa.BinOp); ok && cmp.Op == token.LSS && cmp.Y == l.bound {
+							continue
+						}
+						good = false
+						why = "the flag overrides of the first instance are skipped under a further condition (e.g. when the piece opens with a rest): --bpm / --meter / --key / --velocity are then silently dropped"
+					}
+				}
 			}
 		}
 		c.check(good, fname(nf)+"|override-first", c.pos(nf.Pos()), fname(nf), "flags override instance 0 only", fname(nf)+": "+why)
